@@ -310,10 +310,13 @@ example : Conns.Ex.env.ord = .INPUT ∧ Conns.Ex.cs[0]? = some Conns.Ex.c1 ∧
   rcases hop with rfl | rfl | rfl | rfl | rfl <;> decide
 
 /-- Any history (COMPORD INPUT): order, cells, completion numbers, sort values and segments of
-the connections present before are preserved; the list only grows at the end. -/
-theorem history_keeps_identities [Add α] [Sub α] [Mul α] [Div α] [LT α] [DecidableLT α] (E : Env α) (hE : E.ord = .INPUT) (ops : List (Op α)) (w : WellConns α) :
+the connections present before are preserved; the list only grows at the end.  (`isLump`
+excludes COMPLUMP, which renumbers completions by design and is not one of the property's
+operations.) -/
+theorem history_keeps_identities [Add α] [Sub α] [Mul α] [Div α] [LT α] [DecidableLT α] (E : Env α) (hE : E.ord = .INPUT) (ops : List (Op α)) (w : WellConns α)
+    (hl : ∀ op ∈ ops, op.isLump = false) :
     w.conns.map Conn.ident <+: (run E ops w).conns.map Conn.ident :=
-  run_idPrefix E hE ops w
+  run_idPrefix E hE ops w hl
 
 end lists
 
